@@ -7,5 +7,5 @@ import "github.com/acquirecloud/golibs/container/iterable"
 // many are pinned. Test-only (scratch copy); call at quiescence.
 func VerifState[PK any, K comparable, V any](p *ECache[PK, K, V]) (resident, inflight int, held bool, nodes, pinned int) {
 	nodes, pinned = iterable.VerifNodes(p.items)
-	return p.items.Len(), len(p.inflight), p.lock.Held(), nodes, pinned
+	return iterable.VerifLen(p.items), len(p.inflight), p.lock.Held(), nodes, pinned
 }
